@@ -78,6 +78,8 @@ def _case(draw):
         prog = draw(progs.programs(table, kinds=("b", "assign", "when", "se", "print"), max_comps=3, depth=1, or_mode=False))
         members.append({"prog": prog, "scan": "1*", "id": f"m{i}" if draw(st.integers(0, 3)) else None})
     datapos = [i for i, r in enumerate(table["records"]) if r][1:]
+    if table["records"][0] and draw(st.integers(0, 4)) == 2:
+        datapos = [0]   # the header row itself (physical line 0) is scanned and aborts
     return {"table": table, "members": members,
             "abort_member": draw(st.integers(0, n - 1)),
             "abort_line": draw(st.sampled_from(datapos)),
@@ -144,6 +146,9 @@ def one_point(case, sb, am, line):
     policy = ["raise", "collect"] if case["how"] == "policy" else ["collect", "print"]
     sb.write_config(policy)
     rel = sb.write_csv("f.csv", records)
+    if line == 0:
+        # scan from line 0: the header row offends (its 'e' cell is the text 'e'; vfboom(0) fires there)
+        members = [dict(m, scan=("*" if i == am else m["scan"])) for i, m in enumerate(members)]
     texts = [member_text(m, "", comp if i == am else None, raise_comment=(i == am and case["how"] == "comment")) for i, m in enumerate(members)]
     # standalone references for the members that do not abort (policy without raise for them is irrelevant: they have no error)
     alone = []
@@ -262,6 +267,8 @@ def run_case(case, sb):
     points = []
     if case.get("all_points"):
         datapos = [i for i, r in enumerate(case["table"]["records"]) if r][1:]
+        if case["table"]["records"][0]:
+            datapos = [0] + datapos
         for am in range(len(case["members"])):
             for ln in datapos:
                 points.append((am, ln))
